@@ -26,7 +26,7 @@ ASSUMPTIONS = ["numpy linear algebra", "reference gate table vlib/refsim.py and 
                "outcomes with conditional probability in [1e-30, 1e-9) carry no claim (neither success nor refusal is required)",
                "function / class controls are drawn from three families defined in vlib/h_c10.py (table, repeat-until-success, "
                "outcome-history class); arbitrary Python control code is not explored",
-               "sampled modes are statistical checks at 6.5 sigma (+1/N continuity) with the numpy global RNG pinned per case",
+               "sampled modes are statistical checks (exact two-sided binomial tail < 1e-12 per outcome) with the numpy global RNG pinned per case",
                "noise models together with measurements are not exercised (C19)"]
 SHARDS = {"quick": 4, "thorough": 16}
 
@@ -38,7 +38,8 @@ def selftest():
 # ----------------------------------------------------------------------------------------------------- helpers
 
 def stat_bad(f, p, N):
-    return abs(f - p) > 6.5 * np.sqrt(max(p * (1 - p), 0.0) / N) + 1.0 / N + 1e-9
+    from vlib.stats import binomial_ok      # exact two-sided binomial tail (a Gaussian band is invalid for small N*p)
+    return not binomial_ok(f * N, N, p)
 
 
 def check_counts(freqs, N, keylen, sig, what):
@@ -65,7 +66,7 @@ def check_sampled(obs, ref, N, prob_of, sig, what):
             if p is None or p < 1e-20:
                 raise Fail(f"{what}: observed outcome {k} (frequency {f}) is impossible (p={p})", sig=sig + ":support")
         if stat_bad(f, p, N):
-            raise Fail(f"{what}: outcome {k} has frequency {f}, probability {p}, N={N} (> 6.5 sigma)", sig=sig + ":dist")
+            raise Fail(f"{what}: outcome {k} has frequency {f}, probability {p}, N={N} (exact binomial tail < 1e-12)", sig=sig + ":dist")
 
 
 def check_exact_freqs(freqs, p, n, sig, what, prefix=""):
